@@ -171,6 +171,49 @@ def hist_fn(case):
     return r
 
 
+# ---------------------------------------------------------------------------------------------
+# reuse phase: one live model evaluated on a sequence of spectral windows (equal lengths included)
+# ---------------------------------------------------------------------------------------------
+WN7 = [1000.0, 1500.0, 2000.0, 2500.0, 3000.0, 3500.0, 4000.0]
+WINDOWS = [None, [0, 2], [2, 4], [5, 7], [1, 4]]
+
+
+def reuse_build(case):
+    from taurex.cache import OpacityCache, CIACache
+    fx.reset_caches()
+    tabs = {}
+    for mol, f in (('H2O', 1.0), ('CH4', 0.37)):
+        tabs[mol] = fx.table(3, 3, 7, 1e-27, salt=('c02r', mol)) * f
+    CIACache().add_cia(fx.TinyCIA('H2-He', WN7, CIA_T, fx.rng('c02rcia').uniform(0.5, 1.5, size=(3, 7)) * 1e-53))
+    if case['opmode'] == 'xsec':
+        for mol, t in tabs.items():
+            OpacityCache().add_opacity(fx.TinyOp(mol, WN7, TG, PG, t))
+    else:
+        k = dict((mol, t[..., None] * np.array([0.2, 1.0, 5.0])[None, None, None, :]) for mol, t in tabs.items())
+        fx.install_ktables(k, GW, WN7, TG, PG)
+    return fx.build_model({'kind': case['kind'], 'N': 3, 'T': ['dec'], 'ngauss': 2,
+                           'gases': [['H2O', ['const', 1e-4]], ['CH4', ['const', 3e-5]]],
+                           'contribs': ['abs', ['cia', ['H2-He']], 'ray']})
+
+
+def reuse_fn(case):
+    r = core.R(case)
+    live = reuse_build(case)
+    names = []
+    for w in case['seq']:
+        req = None if w is None else np.array(WN7[w[0]:w[1]])
+        names.append('full' if w is None else 'win%d' % (w[1] - w[0]))
+        got = rthist.evaluate(live, req)
+        want = rthist.evaluate(reuse_build(case), req)
+        sig = '%s/%s/%s' % (case['kind'], case['opmode'], '>'.join(names))
+        r.eq(got[0], want[0], 'reuse-grid', 'reuse-grid/' + sig, rtol=0)
+        if got[0].shape == want[0].shape:
+            r.eq(got[1], want[1], 'reuse-spectrum', 'reuse/' + sig, rtol=1e-12, seq=case['seq'])
+        r.observe(got[1])
+    r.nontrivial = True
+    return r
+
+
 def explore(ctx):
     if ctx.tier == 'quick':
         cases = core.product_cases(DIMS, core=['N', 'T', 'mag', 'ngauss'], d=2)
@@ -189,3 +232,9 @@ def explore(ctx):
     ctx.bounds.update(history_depth_full_alphabet=2 if ctx.tier == 'quick' else 3,
                       history_depth_reduced_alphabet=3 if ctx.tier == 'quick' else 4, histories=len(hcases))
     ctx.run_cases('hist_fn', hcases, phase='histories')
+    import itertools as _it
+    rc = [{'kind': k, 'opmode': o, 'seq': [list(w) if w else None for w in seq]}
+          for k in ('emission', 'directimage') for o in ('xsec', 'kspread')
+          for d in ((2,) if ctx.tier == 'quick' else (2, 3)) for seq in _it.product(WINDOWS, repeat=d)]
+    ctx.bounds.update(reuse_sequences=len(rc))
+    ctx.run_cases('reuse_fn', rc, phase='reuse')
